@@ -316,7 +316,9 @@ def oracle(ctx):
             ctx.violation('templates loaded through one loader influence each other\'s load: resolution', {'search_path': sp0},
                           expected=['<p><b>inc1</b></p>', '<p><b>inc2</b></p>', '<p><b>inc1</b></p>', '<p><b>inc1</b></p>'], actual=[ra, rb, ra2, r3])
         # (b) schedules judged directly: every thread returns what it returns alone
-        for n, s in itertools.islice(schedules(2, 6 if ctx.tier == 'quick' else 9), ctx.budget(200, 5000)):
+        three = list(schedules(3, 6 if ctx.tier == 'quick' else 8))
+        three = ctx.rng.sample(three, min(len(three), ctx.budget(150, 4000)))
+        for n, s in list(itertools.islice(schedules(2, 6 if ctx.tier == 'quick' else 9), ctx.budget(200, 5000))) + three:
             for auto in (True, False):
                 real = real_schedule(d, n, s, auto)
                 ctx.count('evaluations')
